@@ -84,6 +84,11 @@ FUNCS = [
     dict(name='IPAddress_set_value', tie='NV.Tie.addr_set_value', prop='C14', file='ip/__init__.py', cls='BaseIP', func='_set_value', kind='addr', params=[('value', 'int')], ret='self'),
     dict(name='IPNetwork_set_value', tie='NV.Tie.net_set_value', prop='C02', file='ip/__init__.py', cls='BaseIP', func='_set_value', kind='net', params=[('value', 'int')], ret='self'),
     dict(name='IPNetwork_set_prefixlen', tie='NV.Tie.net_set_prefixlen', prop='C02', file='ip/__init__.py', cls='IPNetwork', func='_set_prefixlen', kind='net', params=[('value', 'int')], ret='self'),
+    # EUI: derived identifiers (`end` = value when the if / elif chain over the two strategy modules is left without a
+    # return: Python returns None there, which no constructed object reaches - the theorems assume version 48 or 64)
+    dict(name='EUI_is_iab', tie='NV.Tie.eui_is_iab', prop='C08', file='eui/__init__.py', cls='EUI', func='is_iab', kind='eui', params=[], ret='bool', end='false'),
+    dict(name='EUI_eui64', tie='NV.Tie.eui_eui64', prop='C08', file='eui/__init__.py', cls='EUI', func='eui64', kind='eui', params=[], ret='ctor2'),
+    dict(name='IAB_split_iab_mac', tie='NV.Tie.iab_split', prop='C08', file='eui/__init__.py', cls='IAB', func='split_iab_mac', kind=None, params=[('eui_int', 'int'), ('strict', 'bool')], ret='tuple2'),
     # `x in y`: one translation per operand class (isinstance tests are decided by the declared class)
     dict(name='IPNetwork_contains_addr', tie='NV.Tie.net_contains_addr', prop='C04', file='ip/__init__.py', cls='IPNetwork', func='__contains__', kind='net', params=[('other', 'obj:addr')], ret='bool'),
     dict(name='IPNetwork_contains_net', tie='NV.Tie.net_contains_net', prop='C04', file='ip/__init__.py', cls='IPNetwork', func='__contains__', kind='net', params=[('other', 'obj:net')], ret='bool'),
@@ -175,6 +180,8 @@ def intrinsic(ctx, e):
             return '((maxInt ver : Nat) : Int)'
         if ch[1:] in (['_module', 'version'], ['version']):
             return '((ver : Nat) : Int)'
+        if ch[1:] == ['value'] and ctx.kind == 'eui':
+            return 'val'
         if ch[1:] == ['_start', '_value'] and ctx.kind == 'rng':
             return 'lo'
         if ch[1:] == ['_end', '_value'] and ctx.kind == 'rng':
@@ -311,6 +318,13 @@ def prop(ctx, e):
     st = static_test(ctx, e)
     if st is not None:
         return 'True' if st else 'False'
+    if isinstance(e, ast.Compare) and len(e.ops) == 1 and isinstance(e.ops[0], ast.Eq) and ctx.kind == 'eui' \
+            and attr_chain(e.left) == ['self', '_module'] and isinstance(e.comparators[0], ast.Name) \
+            and e.comparators[0].id in ('_eui48', '_eui64'):
+        return '(ver = %s)' % e.comparators[0].id[4:]
+    if isinstance(e, ast.Compare) and len(e.ops) == 1 and isinstance(e.ops[0], ast.In) \
+            and attr_chain(e.comparators[0]) in (['IAB', 'IAB_EUI_VALUES'], ['cls', 'IAB_EUI_VALUES']):
+        return '(Py.inNat %s NV.Gen.iabEuiValues)' % ival(ctx, e.left)
     if isinstance(e, ast.Compare):
         terms = [e.left] + list(e.comparators)
         parts = []
@@ -412,6 +426,8 @@ def block(ctx, stmts, ind, loop=None):
             return '%s%s fuel %s' % (pad, loop[0], ' '.join(loop[1]))
         if ctx.spec['ret'] in ('opt_ctor2', 'opt_ctor3'):
             return pad + wrap_ok(ctx, 'none')
+        if ctx.spec.get('end') is not None:
+            return pad + wrap_ok(ctx, ctx.spec['end'])
         if ctx.spec['ret'] == 'self':      # a setter: returns None, the caller sees the stored fields
             return pad + wrap_ok(ctx, '(' + ', '.join(KINDS[ctx.kind][1]) + ')')
         raise Untranslatable('function can fall off its end')
@@ -599,6 +615,7 @@ def translate_all(root=None, funcs=None):
            Shallow translation of the listed functions; `Props/Tie.lean` proves each equal to the
            hand-written model function under the code's own range guards. -/
         import NetaddrVerif.Model.PyOps
+        import NetaddrVerif.Gen.Dialects
         namespace NV.Trans
         open NV
 
